@@ -202,6 +202,7 @@ inductive KeyKind where
   | uint    -- Go `uint` (as u64)
   | sk      -- struct `{A string}`: ordered by, and layered on, its marshaled form
   | skc     -- struct key of a tree with a CUSTOM marshaler: marshaled form `"c:<letters>"`
+  | i64w    -- int64 anywhere in its range: the code is the value with the sign bit flipped (value = code - 2^63)
   | strx    -- string: the five letters followed by a fragment that `encoding/json` escapes (or not)
   deriving Repr, DecidableEq, Inhabited
 
@@ -252,6 +253,7 @@ def keyBytes (kk : KeyKind) (k : Nat) : Bytes :=
   match kk with
   | .vk | .u64 | .uint => digits k
   | .i64 | .int => if k ≥ i64bias then digits (k - i64bias) else 45 :: digits (i64bias - k)
+  | .i64w => if k ≥ 2 ^ 63 then digits (k - 2 ^ 63) else 45 :: digits (2 ^ 63 - k)
   | .sk => str "{\"A\":" ++ quote (strKey k) ++ str "}"
   | .skc => quote ([99, 58] ++ strKey k)
   | .str => quote (strKey k)
